@@ -219,19 +219,39 @@ func genC06(r *rng) *c06Scenario {
 	sc := &c06Scenario{ruleTypes: map[string]zooType{}}
 	plusOrStar := pick(r, []string{"+", "*"})
 	wRule := r.chance(1, 3)
+	// u: a rule that REUSES a generated helper created earlier under another name form: @list(x,TC)? after
+	// @list(x,TC) (rule z), or x* after x+ / x+ after x* (rule s)
+	uKind := r.intn(3)
 	var sb strings.Builder
-	sb.WriteString("@lexer\nTA = 'a'\nTB = 'b'\nTC = 'c'\nTD = 'd'\nTE = 'e'\nTF = 'f'\nTG = 'g'\n@frag [ \\n]+ @discard\n@parser\n")
+	sb.WriteString("@lexer\nTA = 'a'\nTB = 'b'\nTC = 'c'\nTD = 'd'\nTE = 'e'\nTF = 'f'\nTG = 'g'\nTH = 'h'\n@frag [ \\n]+ @discard\n@parser\n")
 	fmt.Fprintf(&sb, "@start s = x%s y? TD\n         | TE z\n", plusOrStar)
 	if wRule {
 		sb.WriteString("         | TF w\n")
 	}
 	sb.WriteString("         | TG v\n")
+	if uKind > 0 {
+		sb.WriteString("         | TH u\n")
+	}
+	uText := ""
+	switch uKind {
+	case 1:
+		uText = "u = TD @list(x, TC)? TD\n"
+	case 2:
+		uText = "u = TD x" + map[string]string{"+": "*", "*": "+"}[plusOrStar] + " TD\n"
+	}
+	uFirst := r.chance(1, 3)
+	if uFirst {
+		sb.WriteString(uText)
+	}
 	sb.WriteString("x = TA\n  | TB TB\ny = TC\nz = @list(x, TC)\nv = TD\n  | y\n")
 	if wRule {
 		sb.WriteString("w = TA+\n")
 	}
+	if !uFirst {
+		sb.WriteString(uText)
+	}
 	sc.lox = sb.String()
-	for _, rn := range []string{"s", "x", "y", "z", "w", "v"} {
+	for _, rn := range []string{"s", "x", "y", "z", "w", "v", "u"} {
 		sc.ruleTypes[rn] = pick(r, zoo)
 	}
 	sc.perturb = pick(r, []string{"", "", "", "", "missing", "ambiguous", "orphan", "retconflict", "tworesults", "unknownrule", "variadic"})
@@ -621,6 +641,13 @@ func checkC06(c *checkCtx) {
 			args := []string{"2,3,3,4,5", "6,2,4,3,3", "8,5", "8,4"}
 			if strings.Contains(sc.lox, "TF w") {
 				args = append(args, "7,2,2")
+			}
+			if strings.Contains(sc.lox, "u = TD @list") {
+				args = append(args, "9,5,2,4,3,3,5") // (an absent optional legitimately delivers the zero value: not probed)
+			} else if strings.Contains(sc.lox, "u = TD x+") {
+				args = append(args, "9,5,2,3,3,5")
+			} else if strings.Contains(sc.lox, "u = TD x*") {
+				args = append(args, "9,5,2,3,3,5")
 			}
 			r := run(filepath.Dir(s.bin), 0+60e9, nil, s.bin, args...)
 			out := string(r.Out)
